@@ -112,6 +112,12 @@ func CheckOutcome(cmd *Cmd, ex Expect, got Outcome, mt *MTable) (fails []Fail, q
 	// ---- payloads of successful calls
 	switch cmd.Op {
 	case "Get":
+		if len(cmd.Proj) > 0 {
+			if !projOK(got.Item, want.Item, cmd.Proj) {
+				add("C01.get", "GetItem with projection %v returned %s, model %s", cmd.Proj, got.Item.Canon(), want.Item.Canon())
+			}
+			break
+		}
 		if !itemsEq(got.Item, want.Item) {
 			add("C01.get", "GetItem returned %s, model %s", got.Item.Canon(), want.Item.Canon())
 		}
@@ -134,7 +140,7 @@ func CheckOutcome(cmd *Cmd, ex Expect, got Outcome, mt *MTable) (fails []Fail, q
 				}
 			}
 			if !orderOK(got.Items, rng, cmd.Back) {
-				add("C02.order", "Query result not ordered by sort key (backward=%v, sort key type %s): %s", cmd.Back, rng.Type, brief(canonSeq(got.Items)))
+				add("C02.order", "Query result not ordered by sort key (backward=%v, sort key type %s): %s", cmd.Back, sortKeyDesc(got.Items, rng), brief(canonSeq(got.Items)))
 			}
 		}
 		if got.Count != len(got.Items) {
@@ -160,6 +166,21 @@ func CheckOutcome(cmd *Cmd, ex Expect, got Outcome, mt *MTable) (fails []Fail, q
 	case "BatchGet":
 		for _, t := range sortedKeys(want.Resp) {
 			g, w := canonSorted(got.Resp[t]), canonSorted(want.Resp[t])
+			if len(cmd.Proj) > 0 {
+				// the projection names the key attributes: items pair up by key
+				ok := len(got.Resp[t]) == len(want.Resp[t])
+				for _, wi := range want.Resp[t] {
+					found := false
+					for _, gi := range got.Resp[t] {
+						found = found || projOK(gi, wi, cmd.Proj)
+					}
+					ok = ok && found
+				}
+				if !ok {
+					add("C19.get", "BatchGetItem %s with projection %v returned %s, individual gets %s", t, cmd.Proj, brief(g), brief(w))
+				}
+				continue
+			}
 			if !sameStrings(g, w) {
 				add("C19.get", "BatchGetItem %s returned %s, individual gets %s", t, brief(g), brief(w))
 			}
